@@ -20,7 +20,7 @@ It is quantified over: {p['quantifier']['text']}
 YOUR TASK: make ONE realistic change to the non-test source code (a slip a maintainer could plausibly make while refactoring, optimising or adding a small feature) that BREAKS this property while
  (a) the project still compiles (go build ./... and go vet ./... are clean),
  (b) the existing test suite passes unedited: go test ./... (run it to be sure),
- (c) the breakage is a genuine violation of the property as stated, on valid input whose meaning the README defines, and is HARD TO FIND. Assume a systematic tester that already: tries every small program, every short token sequence and every pair of features; scales each construct up (every statement kind repeated or nested up to 40 times, switches up to 100 cases, long texts, argument lists and tables, every movement multiplier, every integer up to 70000 at every numeric position, positions beyond line / column 65536); compiles mass files (100,000 scripts, 260,000 different moves() lists) so that any 32-bit hash key collides; re-runs every control-flow shape wrapped in poryswitch cases (also empty ones), with operands written as constants or as expressions with + and %, with line markers on (with and without a path), on a single line, one token per line, with all optional white space removed and with comments everywhere (also comments ending in a backslash); uses every string and rune literal of the compiler's own source as command name, argument, constant name and value, text content, step, item, label, case label and command-config key; uses one character of every Unicode category; uses spellings that collide when joined without separator; puts conditions into the second and later inline scripts of a mapscripts statement; compiles files with two or three statements of every kind in every order; tries three font config files, default font / default length options, empty -s values, and command configs with odd keys; and checks that every statement compiles the same alone and next to other statements. Aim at what that tester would STILL miss. Ideas: behaviour that depends on a COUNT reaching a small threshold other than 64 (3rd / 5th / 10th occurrence of something within one statement); an interaction between TWO data statements (text + text, movement + mart) rather than scripts; a specific combination of format() parameters with font config VALUES (e.g. cursorOverlapWidth equal to a glyph width, maxLineLength equal to a word width); the LAST item of a list or the last case only; nested constructs of DIFFERENT kinds three deep in a particular order (switch in do-while in poryswitch); label names or text contents that differ only by CASE or by a trailing digit; an error reported on the right line but for the wrong program (valid programs rejected only in lint mode or only in normal mode); state that survives from one poryswitch CASE to the next; the first statement of a file or a file that has ONLY data statements.
+ (c) the breakage is a genuine violation of the property as stated, on valid input whose meaning the README defines, and is HARD TO FIND. Assume a systematic tester that already: tries every small program, every short token sequence and every pair of features; scales each construct up (every statement kind repeated or nested up to 40 times, switches up to 100 cases, long texts, argument lists and tables, every movement multiplier, every integer up to 70000 at every numeric position, positions beyond line / column 65536); compiles mass files (100,000 scripts, 260,000 different moves() lists) so that any 32-bit hash key collides; re-runs every control-flow shape wrapped in poryswitch cases (also empty ones), with operands written as constants or as expressions with + and %, with line markers on (with and without a path), on a single line, one token per line, with all optional white space removed and with comments everywhere (also comments ending in a backslash); uses every string and rune literal of the compiler's own source as command name, argument, constant name and value, text content, step, item, label, case label and command-config key; uses one character of every Unicode category; uses spellings that collide when joined without separator; puts conditions into the second and later inline scripts of a mapscripts statement; compiles files with two or three statements of every kind in every order; tries three font config files, default font / default length options, empty -s values, and command configs with odd keys; and checks that every statement compiles the same alone and next to other statements. The tester also moves every enumeration it has for one property to the neighbouring properties (so a slip already used for another property - constant replacement reaching a place it should not, a dedupe key that ignores the string type, implicit data dropped in a recursive call, a printf format built from input, state kept per top-level statement instead of per script - is caught whichever property it is aimed at). Aim at what that tester would STILL miss. Ideas: behaviour that depends on a COUNT reaching a small threshold other than 64 (3rd / 5th / 10th occurrence of something within one statement); an interaction between TWO data statements (text + text, movement + mart) rather than scripts; a specific combination of format() parameters with font config VALUES (e.g. cursorOverlapWidth equal to a glyph width, maxLineLength equal to a word width); the LAST item of a list or the last case only; nested constructs of DIFFERENT kinds three deep in a particular order (switch in do-while in poryswitch); label names or text contents that differ only by CASE or by a trailing digit; an error reported on the right line but for the wrong program (valid programs rejected only in lint mode or only in normal mode); state that survives from one poryswitch CASE to the next; the first statement of a file or a file that has ONLY data statements.
 Earlier colleagues already produced the following changes for this property; yours must use a DIFFERENT mechanism, in a different function, and need a different kind of input from all of them:
 {prevtxt}
 Then write a DEMONSTRATION: a new Go test file inside the worktree (for example emitter/seeded_demo_test.go, using the public API lexer.New / parser.New / emitter.New the way the existing tests do; the test function name must contain 'Seeded') that FAILS with your change and PASSES on the original code. Verify both directions yourself.
